@@ -11,7 +11,7 @@ type syncRec struct {
 }
 
 func runSyncCase(spec gsx.SyncSpec) syncRec {
-	return syncRec{K: "sync", SyncObs: gsx.RunSync(spec, nil)}
+	return syncRec{K: "sync", SyncObs: gsx.RunSync(spec, nil, nil)}
 }
 
 func genSync(o *hx.Out, r *hx.Rng, n int) {
